@@ -53,9 +53,18 @@ def nonmarkov(ctx, drv):
         if ctx.rng.random() < 0.3:      # engineered ties: all delays from a tiny set
             c["delay"] = [[u, v, ctx.rng.choice(["0", "1", "1", "2", "inf"])] for u, v, d in c["delay"]]
             c["dur"] = [ctx.rng.choice(["0", "1", "2", "inf"]) for _ in c["dur"]]
+        if c.get("recs") and ctx.rng.random() < 0.3:
+            # the recovered nodes arrive as a tuple / dict-keys view / one-shot iterator: whatever the function accepts it must
+            # treat as "these nodes are recovered" (a TypeError for the iterator is a rejection, not a wrong answer: no verdict)
+            c["recs_container"] = ctx.rng.choice(["generator", "generator", "dictkeys", "tuple"])
+            ctx.count("nonMarkov:recovereds as " + c["recs_container"])
         full, G, idx = allsims.run_impl(c, rng=ctx.rng, full=True)
         plain, _, _ = allsims.run_impl(c, rng=ctx.rng, full=False)
         rep = dict(entry="fast_nonMarkov_SIR", case=strip(c))
+        if c.get("recs_container") == "generator" and any((not o["ok"]) and o["err"] == "TypeError" for o in (full, plain)):
+            ctx.count("nonMarkov:one-shot iterator rejected")
+            ctx.case(rep, nontrivial=False)
+            continue
         for o in (full, plain):
             if not o["ok"]:
                 ctx.violation("fast_nonMarkov_SIR raised %s" % o["err"], dict(rep, error=o["err"], tb=o.get("tb")))
